@@ -254,6 +254,30 @@ int main(int argc, char ** argv) {
             }
         }
         summary();
+    } else if (mode == "lattice") {
+        // C03: "at lattice points it returns the stored value exactly (after conversion to the coordinate precision when that
+        // is the narrower one)".  Cases (double d, float Narrow(d)) come from spec/FloatMC.tla as 16-bit limbs: a double-stored
+        // field interpolated with float coordinates must return exactly Narrow(d) at a lattice point, with double
+        // coordinates exactly d.
+        auto unl = [](const json & l, void * out, std::size_t n) { unsigned char b[8]; std::size_t k = 0; for (auto & x : l) { unsigned v = x.get<unsigned>(); b[k++] = v & 0xFF; b[k++] = v >> 8; } std::memcpy(out, b, n); };
+        for (auto & c : read_ndjson(argv[2])) {
+            if (c["kind"] != "narrow") continue;
+            double d; float f; unl(c["d"], &d, 8); unl(c["f"], &f, 4);
+            if (!(std::isfinite(d)) || !(std::isfinite(f))) continue;
+            ++g_cases;
+            using B = strided_t<1, 1, double>;
+            covfie::field<B> base(covfie::make_parameter_pack(typename B::configuration_t{3ul}, typename B::backend_t::configuration_t{3ul}));
+            { typename covfie::field<B>::view_t v(base); v.at(0ul)[0] = d; v.at(1ul)[0] = d; v.at(2ul)[0] = -d; }
+            covfie::field<cb::linear<B, cv::vector_d<float, 1>>> lf(base);
+            covfie::field<cb::linear<B, cv::vector_d<double, 1>>> ld(base);
+            double gf = typename decltype(lf)::view_t(lf).at(1.f)[0];
+            double gd = typename decltype(ld)::view_t(ld).at(1.0)[0];
+            uint64_t a, b2, w; double wf = (double)f; std::memcpy(&a, &gf, 8); std::memcpy(&w, &wf, 8); std::memcpy(&b2, &gd, 8);
+            uint64_t dd; std::memcpy(&dd, &d, 8);
+            expect_eq("linear/lattice-exact/float-coordinates-double-storage", a, w, {{"d_limbs", c["d"]}, {"narrowed_limbs", c["f"]}});
+            expect_eq("linear/lattice-exact/double-coordinates-double-storage", b2, dd, {{"d_limbs", c["d"]}});
+        }
+        summary();
     } else if (mode == "trace") {
         rng r(std::strtoull(argv[2], nullptr, 10));
         long n = std::atol(argv[3]);
